@@ -39,7 +39,7 @@ Mid == [c \in 1 .. Dim |-> (Lower[c] + Upper[c]) \div 2]
 Alt == [c \in 1 .. Dim |-> IF c % 2 = 1 THEN Lower[c] ELSE Upper[c]]
 Grid == { Lower, Upper, Mid, Alt }
 
-MCNext == Check \/ (Len(evals) < 2 /\ \E x \in Grid : Eval(x))
+MCNext == Check \/ (Len(evals) < 2 /\ \E x \in Grid : Eval(x)) \/ (Len(evals) >= 1 /\ Rerun)
 MCInit == \E c \in CfgSet(0) : KInitWith(c)
 MCSpec == MCInit /\ [][MCNext]_kvars
 
